@@ -508,6 +508,8 @@ impl<'forest, I: Interner> SolveState<'forest, I> {
         self.stack
             .push(initial_table, Minimums::MAX, self.forest.increment_clock());
         loop {
+            #[cfg(feature = "verif-hooks")]
+            chalk_solve::verif_hooks::tick();
             let clock = self.stack.top().clock;
             // If we had an active strand, continue to pursue it
             let table = self.stack.top().table;
@@ -1275,6 +1277,8 @@ impl<'forest, I: Interner> SolveState<'forest, I> {
     /// their tables (this time at the end of the queue).
     fn unwind_stack(&mut self) {
         loop {
+            #[cfg(feature = "verif-hooks")]
+            chalk_solve::verif_hooks::tick();
             match self.stack.pop_and_take_caller_strand() {
                 Some(active_strand) => {
                     let table = self.stack.top().table;
@@ -1312,6 +1316,8 @@ impl<'forest, I: Interner> SolveState<'forest, I> {
 
     fn select_subgoal(&mut self, canonical_strand: &mut CanonicalStrand<I>) -> SubGoalSelection {
         loop {
+            #[cfg(feature = "verif-hooks")]
+            chalk_solve::verif_hooks::tick();
             while canonical_strand.value.selected_subgoal.is_none() {
                 if canonical_strand.value.ex_clause.subgoals.is_empty() {
                     if canonical_strand
